@@ -459,7 +459,7 @@ theorem cont_ledger (o : Outcome) (s : St) (k : Except LErr Val → St → St ×
   | panicked => exact h
   | diverged => exact h
 
-/-- **Every loader program preserves the ledger**: nested loads, `load_owned`, failures, panics, fuel
+/-- **Every loader program preserves the ledger**: nested loads, `load_owned`, `get_or_insert` (also into the slot being loaded), failures, panics, fuel
 exhaustion, helper threads, `no_record`. -/
 theorem eval_ledger (env : Env) : ∀ f s p, LedgerOK s → LedgerOK (eval env f s p).1 := by
   intro f
@@ -480,6 +480,17 @@ theorem eval_ledger (env : Env) : ∀ f s p, LedgerOK s → LedgerOK (eval env f
     | getCached key k =>
       simp only [eval]
       exact ih _ _ (h.of_same (St.record_same s _ _))
+    | getOrInsert key v k =>
+      simp only [eval]
+      have h' := h.of_same (St.record_same s (recordsAsset (env.types key.ty).hot env.hasReloader) (.asset key))
+      generalize s.record _ _ = s' at h'
+      cases hl : s'.lookup key with
+      | some c => simp only []; exact ih _ _ (h'.handOut key.ty)
+      | none =>
+        simp only []
+        have := h'.ins key (insertedCell env key v s'.next) key.ty rfl
+        rw [hl] at this
+        exact ih _ _ this
     | tick k =>
       simp only [eval]
       exact ih _ _ (h.of_same (t := { s with loads := s.loads + 1 }) ⟨rfl, rfl, rfl, rfl, rfl⟩)
